@@ -181,11 +181,11 @@ fn families(quick: bool) -> Vec<Family> {
     push("mem.names.obs", mem, alpha_names(false), if quick { 4 } else { 5 }, ObsMode::EachStep, cap_m);
     push("mem.reads.final", mem, alpha_reads(false), if quick { 4 } else { 6 }, ObsMode::FinalOnly, cap_m);
     // ---- RocksDB store (every sequence ends with close + reopen + full sweep)
+    push("rocks.names.obs", rk, alpha_names(true), if quick { 2 } else { 3 }, ObsMode::EachStep, cap_r);
     push("rocks.keys.obs", rk, alpha_keys(true), if quick { 3 } else { 4 }, ObsMode::EachStep, cap_r);
     push("rocks.neighbours.obs", rk, alpha_neighbours(true), if quick { 3 } else { 4 }, ObsMode::EachStep, cap_r);
     push("rocks.values.obs", rk, alpha_values(true), if quick { 3 } else { 4 }, ObsMode::EachStep, cap_r);
     push("rocks.mixed.obs", rk, alpha_mixed(true), if quick { 3 } else { 4 }, ObsMode::EachStep, cap_r);
-    push("rocks.names.obs", rk, alpha_names(true), if quick { 2 } else { 3 }, ObsMode::EachStep, cap_r);
     push("rocks.reads.final.default_opts", rk_def, alpha_reads(true), if quick { 2 } else { 3 }, ObsMode::FinalOnly, cap_r);
     f
 }
@@ -272,7 +272,7 @@ fn run_family(ctx: &Ctx, fam: &Family, budget_end: Instant) {
                 out.nontrivial += 1;
             }
             out.digests.extend(r.digests.iter().copied());
-            if let Some(f) = r.fail {
+            for f in r.fails {
                 let failing: Vec<Op> = ops[..f.upto.min(ops.len())].to_vec();
                 let e = out.fails.entry(f.sig.clone());
                 match e {
@@ -312,6 +312,14 @@ fn run_family(ctx: &Ctx, fam: &Family, budget_end: Instant) {
     let mut digests: HashSet<u64> = HashSet::new();
     let mut fails: BTreeMap<String, (Vec<Op>, String)> = BTreeMap::new();
     let mut completed = 0usize;
+    let mut full_len: Option<usize> = None;
+    for &l in &lens {
+        if tasks.iter().zip(outs.iter()).filter(|(t, _)| t.0 == l).all(|(_, o)| o.completed) {
+            full_len = Some(l);
+        } else {
+            break;
+        }
+    }
     for o in outs {
         evals += o.evals;
         calls += o.calls;
@@ -361,7 +369,7 @@ fn run_family(ctx: &Ctx, fam: &Family, budget_end: Instant) {
         exhaustive,
         bounds: json!({"backend": fam.backend.name(), "alphabet_size": a, "depth": fam.depth, "lengths_run": lens,
             "observation": fam.obs.name(), "sequences_in_space": total, "sequences_run": evals,
-            "tasks_completed": completed, "tasks": tasks.len(),
+            "tasks_completed": completed, "tasks": tasks.len(), "all_sequences_up_to_length_completed": full_len,
             "items": fam.items.iter().map(|i| i.text()).collect::<Vec<_>>(),
             "alphabet": fam.alphabet.iter().map(op_text).collect::<Vec<_>>(),
             "final": if fam.backend.is_rocks() { "non-allocating observation, close+reopen, allocating sweep of all items" } else { "allocating sweep of all items" }}),
@@ -404,8 +412,13 @@ fn main() {
     // stale directories of an earlier (killed) run
     if let Ok(rd) = std::fs::read_dir(tmp_root(&ctx.root)) {
         for e in rd.flatten() {
-            if e.file_name().to_string_lossy().starts_with("c13-") {
-                let _ = std::fs::remove_dir_all(e.path());
+            let name = e.file_name().to_string_lossy().to_string();
+            if let Some(rest) = name.strip_prefix("c13-") {
+                // only directories whose owning process is gone
+                let pid = rest.split('-').next().unwrap_or("");
+                if !pid.is_empty() && !std::path::Path::new("/proc").join(pid).exists() {
+                    let _ = std::fs::remove_dir_all(e.path());
+                }
             }
         }
     }
@@ -425,12 +438,13 @@ fn main() {
                 if let Some(dd) = dir {
                     let _ = std::fs::remove_dir_all(dd);
                 }
-                if let Some(f) = out.fail {
+                if out.fails.is_empty() {
+                    eprintln!("replay: sequence no longer fails (recorded signature: {})", sig);
+                }
+                for f in out.fails {
                     eprintln!("replay: reproduced: {} :: {}", f.sig, f.what);
                     ctx.violation("replay", &f.sig, json!({"kind": "sequence", "family": fam.name, "tier": d["tier"], "what": f.what,
                         "ops": ops.iter().map(op_text).collect::<Vec<_>>(), "ops_enc": ops_to_json(&ops)}));
-                } else {
-                    eprintln!("replay: sequence no longer fails (recorded signature: {})", sig);
                 }
             }
             Some("crash") => crash::replay(&ctx, &d),
@@ -441,8 +455,12 @@ fn main() {
 
     // overall wall budget of the E2 legs (a leg that runs into it reports exhaustive=false)
     let budget_end = Instant::now() + Duration::from_secs(if ctx.quick() { 45 } else { 1500 });
-    for fam in families(ctx.quick()) {
-        run_family(&ctx, &fam, budget_end);
+    let fams = families(ctx.quick());
+    for (i, fam) in fams.iter().enumerate() {
+        // fair share of what is left, so that an overloaded machine cannot starve the later legs
+        let left = budget_end.saturating_duration_since(Instant::now());
+        let share = left / (fams.len() - i) as u32;
+        run_family(&ctx, fam, Instant::now() + share.max(Duration::from_secs(1)));
     }
     crash::run_legs(&ctx);
 
